@@ -356,37 +356,29 @@ mut("m20-unsynchronised-read-counter", "C20", "two SRT reads overlapping in time
     ("srt.go", """// ReadFromSRT parses an .srt content""", """var srtReads int
 
 // ReadFromSRT parses an .srt content"""))
-mut("m20-webvtt-mutex-protected-last-style-cache", "C20", "a WebVTT read of a document without STYLE block after a read of one with it (race free, residue only)",
-    ("webvtt.go", """	var sa = &StyleAttributes{}
-
-	for scanner.Scan() {
-		// Fetch line
-		line = strings.TrimSpace(scanner.Text())
-		lineNum++""", """	var sa = &StyleAttributes{}
-	webvttLastStyleMu.Lock()
-	if webvttLastStyle != nil {
-		sa.WebVTTStyles = append(sa.WebVTTStyles, webvttLastStyle...)
+mut("m20-ttml-mutex-protected-last-tickrate", "C20", "a TTML read of a document with tick times but no tickRate after (or while) another document with a tickRate was read (race free, residue only)",
+    ("ttml.go", """	// Add metadata
+	o.Metadata = ttml.metadata()
+""", """	// Segments of one stream do not always repeat the tick rate
+	ttmlLastTickrateMu.Lock()
+	if ttml.Tickrate > 0 {
+		ttmlLastTickrate = ttml.Tickrate
+	} else if ttmlLastTickrate > 0 {
+		ttml.Tickrate = ttmlLastTickrate
 	}
-	webvttLastStyleMu.Unlock()
-	defer func() {
-		webvttLastStyleMu.Lock()
-		if s, ok := o.Styles[webvttDefaultStyleID]; ok {
-			webvttLastStyle = s.InlineStyle.WebVTTStyles
-		}
-		webvttLastStyleMu.Unlock()
-	}()
+	ttmlLastTickrateMu.Unlock()
 
-	for scanner.Scan() {
-		// Fetch line
-		line = strings.TrimSpace(scanner.Text())
-		lineNum++"""),
-    ("webvtt.go", """// ReadFromWebVTT parses a .vtt content""", """var (
-	webvttLastStyleMu sync.Mutex
-	webvttLastStyle   []string
+	// Add metadata
+	o.Metadata = ttml.metadata()
+"""),
+    ("ttml.go", """// ReadFromTTML parses a .ttml content""", """var (
+	ttmlLastTickrateMu sync.Mutex
+	ttmlLastTickrate   int
 )
 
-// ReadFromWebVTT parses a .vtt content"""),
-    ("webvtt.go", '\t"strings"\n\t"time"', '\t"strings"\n\t"sync"\n\t"time"'))
+// ReadFromTTML parses a .ttml content"""),
+    ("ttml.go", '\t"strings"\n\t"time"', '\t"strings"\n\t"sync"\n\t"time"'))
+
 mut("m20-ttml-shared-regexp-scratch", "C20", "two TTML reads with clock-time-with-frames expressions overlapping in time",
     ("ttml.go", """	// Extract clock time frames
 	if indexes := ttmlRegexpClockTimeFrames.FindStringIndex(text); indexes != nil {""", """	// Extract clock time frames
